@@ -188,6 +188,8 @@ class Interp:
         self.bstate: Dict[str, bool] = {}
         self.versions: Dict[str, int] = {}
         self.epochs: Dict[str, int] = {}
+        self.guard_state: Dict[str, str] = {}
+        self._guard_lams: Dict[str, C.Lambda] = {}
         self.out = Outcome()
         env = Env(Canon(self.base_aliases))
         try:
@@ -239,8 +241,35 @@ class Interp:
     def exec(self, s: C.Node, env: "Env") -> None:
         if isinstance(s, C.Block):
             inner = env.child()
-            for x in s.stmts:
-                self.exec(x, inner)
+            guards: List[Tuple[str, str, C.Lambda]] = []
+            try:
+                for x in s.stmts:
+                    g = self._guard_decl(x, inner)
+                    if g is not None:
+                        guards.append(g)
+                        self._guard_lams[g[0]] = g[2]
+                        self.guard_state[g[0]] = "armed"
+                        continue
+                    self.exec(x, inner)
+            except _Throw:
+                for name, kind, lam in reversed(guards):
+                    if self.guard_state.get(name) == "armed":
+                        self.guard_state[name] = "done"
+                        try:
+                            self._run_lambda(lam, [], inner)
+                        except _Throw:
+                            pass
+                raise
+            except (_Return, _Break, _Continue):
+                for name, kind, lam in reversed(guards):
+                    if kind == "exit" and self.guard_state.get(name) == "armed":
+                        self.guard_state[name] = "done"
+                        self._run_lambda(lam, [], inner)
+                raise
+            for name, kind, lam in reversed(guards):
+                if kind == "exit" and self.guard_state.get(name) == "armed":
+                    self.guard_state[name] = "done"
+                    self._run_lambda(lam, [], inner)
             return
         if isinstance(s, C.Decl):
             self._decl(s, env)
@@ -295,6 +324,22 @@ class Interp:
         if isinstance(s, C.Opaque):
             raise AnalysisError("unparsed-construct", f"{self.fa.loc(s)}: {s.text[:80]}")
         raise AnalysisError("unparsed-construct", f"K1: statement {type(s).__name__} at {self.fa.loc(s)}")
+
+    def _guard_decl(self, st: C.Node, env: "Env"):
+        if not isinstance(st, C.Decl) or len(st.decls) != 1:
+            return None
+        d = st.decls[0]
+        init = d.init
+        if isinstance(init, C.Call):
+            nm = callee_name(init)
+            kind = {"make_scope_exit": "exit", "scope_exit": "exit", "UnwindCleanupGuard": "unwind"}.get(nm)
+            if kind is None:
+                return None
+            lam = next((a for a in init.args if isinstance(a, C.Lambda)), None)
+            if lam is None:
+                return None
+            return (d.name, kind, lam)
+        return None
 
     def _loop(self, s: C.Node, env: "Env") -> None:
         inner = env.child()
@@ -414,6 +459,9 @@ class Interp:
             return (SYM, "")
         if isinstance(e, C.Lit):
             if e.kind == "num":
+                rr = self._ord_role(e.text)
+                if rr is not None:
+                    return self.role_value(rr)
                 try:
                     return (NUM, int(e.text.rstrip("uUlLzZ").replace("'", ""), 0))
                 except ValueError:
@@ -669,6 +717,17 @@ class Interp:
                 self.out.events.append(("call", ev_name, tuple(args_v)))
                 matched_role_call = ev_name
                 break
+        if isinstance(e.fn, C.Member) and isinstance(e.fn.obj, C.Id) and e.fn.obj.name in self.guard_state \
+                and name in ("release", "complete"):
+            gname = e.fn.obj.name
+            if name == "release":
+                self.guard_state[gname] = "released"
+            elif self.guard_state.get(gname) == "armed":
+                self.guard_state[gname] = "done"
+                lam = self._guard_lams.get(gname)
+                if lam is not None:
+                    self._run_lambda(lam, [], env)
+            return (SYM, "void")
         if name in self.noreturn_calls:
             raise _Throw(name)
         for pat, k in self.invalidate.items():
